@@ -64,6 +64,7 @@ type Report struct {
 	Hang        *HangInfo             `json:"hang,omitempty"`
 	Cases       int64                 `json:"cases"`
 	Extra       map[string]any        `json:"extra,omitempty"`
+	Polluted    bool                  `json:"polluted,omitempty"`
 }
 
 type HangInfo struct {
@@ -185,6 +186,10 @@ func (w *W) Note(set, s string) {
 		m[s] = true
 	}
 }
+
+// Pollute records that shared harness state was changed by the implementation (a value
+// was mutated): later failures of this worker may not reproduce in isolation.
+func (w *W) Pollute() { w.rep.Polluted = true }
 
 // Cap records that a cap was hit, so the run is not exhaustive.
 func (w *W) Cap(what string) { w.rep.Capped = append(w.rep.Capped, what) }
